@@ -305,7 +305,9 @@ func runC09(r *core.Run) {
 	// of edge constructs (empty and marker-only list items, empty quotes, things left open), without link reference syntax
 	{
 		edge := []string{"-\n  foo", "-\n\n  foo", "- a\n-\n", "*", "-", "1.", "1.\n   a", "- a\n-", "-\n- a", "- \n  a", "> ", ">", ">\n> a", "- >", "-   a",
-			"- a\n\n\n", "+\n\n", "- - a", "- # a", "    a\n\n    b", "a\\", "a  ", "\\", "`", "``a", "*a", "_a", "<div>", "<!--", "<?a", "<!A", "<![CDATA[", "</x", "a\n>", "a\n-", "a\n=", "~~~", "```", "- ```", "> ```", "-\n\n-\n\n  a", "1.\n2.\n   a", "-\n  -\n    a", ">\n\n> a", "- a\n\n-", "*\n*\n*"}
+			"- a\n\n\n", "+\n\n", "- - a", "- # a", "    a\n\n    b", "a\\", "a  ", "\\", "`", "``a", "*a", "_a", "<div>", "<!--", "<?a", "<!A", "<![CDATA[", "</x", "a\n>", "a\n-", "a\n=", "~~~", "```", "- ```", "> ```", "-\n\n-\n\n  a", "1.\n2.\n   a", "-\n  -\n    a", ">\n\n> a", "- a\n\n-", "*\n*\n*",
+			// tabs: a line's columns are counted from its own start, whatever came before it
+			"\ta", "  \ta", " \t a", "\t\ta", "-\ta", ">\ta", "- a\n\n\tb", "1.\ta\n\n\t\tb", "a\tb", "```\ncode\n```", "~~~\na\n~~~", "> ```\n> c\n> ```", "a\n\tb", "#\ta"}
 		for _, cn := range []string{"core+unsafe", "gfm"} {
 			cfg := core.MustCfg(cn)
 			type item struct {
@@ -316,7 +318,7 @@ func runC09(r *core.Run) {
 			{
 				cv := core.NewConv(cfg)
 				add := func(md string) {
-					if strings.ContainsAny(md, "[\t\r") || strings.TrimSpace(md) == "" || len(md) > core.Pick(r, 200, 4000) {
+					if strings.ContainsAny(md, "[\r") || strings.TrimSpace(md) == "" || len(md) > core.Pick(r, 200, 4000) {
 						return
 					}
 					src := []byte(strings.TrimRight(md, "\n"))
@@ -340,7 +342,7 @@ func runC09(r *core.Run) {
 					add(e)
 				}
 			}
-			sub := r.Sub("seed-pairs/"+cn, fmt.Sprintf("every ordered pair (A, B) of %d seeds (spec examples, sources of the repository's test-case files, %d edge constructs such as empty and marker-only list items, and the upper-cased form of every seed containing '<'; seeds containing '[', a tab or a carriage return are left out, A skipped when it ends in an open code/HTML block): R(A ⏎⏎ '# h' ⏎⏎ B) == R(A) + heading + R(B) under %s", len(items), len(edge), cn))
+			sub := r.Sub("seed-pairs/"+cn, fmt.Sprintf("every ordered pair (A, B) of %d seeds (spec examples, sources of the repository's test-case files, %d edge constructs such as empty and marker-only list items, and the upper-cased form of every seed containing '<'; seeds containing '[' or a carriage return are left out, A skipped when it ends in an open code/HTML block): R(A ⏎⏎ '# h' ⏎⏎ B) == R(A) + heading + R(B) under %s", len(items), len(edge), cn))
 			sub.Bound = fmt.Sprintf("%d × %d pairs", len(items), len(items))
 			complete := core.ForEachIndex(len(items), core.Workers(), func(w int) func(int) {
 				cv := core.NewConv(cfg)
